@@ -185,7 +185,7 @@ Theorem fa_seek_policy_untouched ffuel r line byte_ r' o : fa_seek ffuel r line 
 Proof.
   unfold fa_seek. intros H.
   destruct ((0 <=? Z.of_nat (start r) + (Z.of_nat byte_ - Z.of_nat (pbyte r)))%Z &&
-            (Z.of_nat (start r) + (Z.of_nat byte_ - Z.of_nat (pbyte r)) <? Z.of_nat (length (buf r)))%Z).
+            (Z.of_nat (start r) + (Z.of_nat byte_ - Z.of_nat (pbyte r)) <? Z.of_nat (length (buf r)))%Z && negb (fa_state_eqb (st r) FNew)).
   { inversion H; subst. fa_simpl. rewrite new_events_refl. auto. }
   destruct (src_seek (src r) byte_) as [s' res] eqn:Es.
   destruct res as [k|].
@@ -228,7 +228,7 @@ Theorem fq_seek_policy_untouched ffuel r line byte_ r' o : fq_seek ffuel r line 
 Proof.
   unfold fq_seek. intros H.
   destruct ((0 <=? Z.of_nat (p0 r) + (Z.of_nat byte_ - Z.of_nat (qbyte r)))%Z &&
-            (Z.of_nat (p0 r) + (Z.of_nat byte_ - Z.of_nat (qbyte r)) <? Z.of_nat (length (qbuf r)))%Z).
+            (Z.of_nat (p0 r) + (Z.of_nat byte_ - Z.of_nat (qbyte r)) <? Z.of_nat (length (qbuf r)))%Z && negb (fq_state_eqb (qst r) QNew)).
   { inversion H; subst. fq_simpl. rewrite new_events_refl. auto. }
   destruct (src_seek (qsrc r) byte_) as [s' res] eqn:Es.
   destruct res as [k|].
